@@ -1485,11 +1485,34 @@ trait HasZBDDCache<E: Edge> {
     spec fn zcache_spec(&self) -> ZBDDCache<E>;
     fn zbdd_cache(&self) -> (r: &ZBDDCache<E>) ensures *r == self.zcache_spec();
 }
+/// R10 stub for `manager.zbdd_cache_mut().tautologies = v` (Verus has no `&mut`-returning accessors): replaces the chain, nothing else
+#[verifier::external_body]
+fn set_tautologies<M: Manager + HasZBDDCache<M::Edge>>(manager: &mut M, v: Vec<M::Edge>)
+    ensures final(manager).zcache_spec().tautologies@ == v@, final(manager).num_levels_spec() == old(manager).num_levels_spec(),
+        forall|x: int| final(manager).var_to_level_spec(x) == old(manager).var_to_level_spec(x),
+{ unimplemented!() }
+/// `std::process::abort()` (out of memory while rebuilding the chain): does not return
+#[verifier::external_body]
+pub fn abort_oom() -> ! { std::process::abort() }
 /// ASSUMED (precondition of every unit that reads the chain): the tautology chain is up to date w.r.t. the manager's
 /// current number of levels (`init_mut`/`post_reorder_mut` rebuild it after add_vars and reordering)
 spec fn zcache_ok<M: Manager + HasZBDDCache<M::Edge>>(m: &M) -> bool { m.zcache_spec().chain_ok(m.num_levels_spec()) }
 
 // ---------- units: crates/oxidd-rules-zbdd/src/lib.rs ----------
+// ---------- pick_cube (vector form, C13) ----------
+//@item file=crates/oxidd-core/src/util/mod.rs path=enum:OptBool attrs="#[derive(Clone, Copy, PartialEq, Eq, Structural)] #[repr(i8)]" vis=pub
+//@end
+impl vstd::std_specs::convert::FromSpecImpl<bool> for OptBool {
+    open spec fn obeys_from_spec() -> bool { true }
+    open spec fn from_spec(v: bool) -> OptBool { if v { OptBool::True } else { OptBool::False } }
+}
+//@item file=crates/oxidd-core/src/util/mod.rs path=impl:From<bool>~for~OptBool props=C13
+//@end
+pub open spec fn zlit_ok(c: OptBool, b: bool) -> bool { match c { OptBool::None => true, OptBool::True => b, OptBool::False => !b } }
+/// the cube vector (indexed by VARIABLE) admits the set `s` (indexed by level) on the levels `from..n`
+pub open spec fn zcube_allows<M: Manager>(m: &M, c: Seq<OptBool>, s: Env, from: int) -> bool {
+    forall|l: int| from <= l < m.num_levels_spec() ==> zlit_ok(c[m.level_to_var_spec(l)], #[trigger] s(l))
+}
 mod rules {
 use super::*;
 broadcast use {leaf_lemmas, upd_lemmas, taut_lemmas, set_lemmas};
@@ -1559,6 +1582,26 @@ pub open spec fn reduce_post(level: u32, hi: Tree, lo: Tree, n: int, r: Tree) ->
     // documented result: lo ∪ {x ∪ {var} | x ∈ hi}
     ensures res is Ok ==> ok(res->Ok_0.view(), manager.num_levels_spec())
         && forall|s: Env| #[trigger] mem(res->Ok_0.view(), s) == (mem(lo.view(), s) || (s(top(var.view())) && mem(hi.view(), upd(s, top(var.view()), false)))),
+//@end
+// the tautology chain itself (C02/C09): `post_reorder_mut` (also `init_mut`) establishes the invariant `zcache_ok` that every unit
+// reading the chain assumes.  R17 (loop invariant), R20 (eprintln dropped), abort -> diverging stub, `&mut` accessor -> setter stub
+//@fn file=crates/oxidd-rules-zbdd/src/lib.rs path=impl:ManagerEventSubscriber<M>~for~ZBDDCache<M::Edge>/fn:post_reorder_mut forinv=0 props=C02,C09 subst_text=std::process::abort()::=abort_oom();;manager.zbdd_cache_mut().tautologies~=~tautologies;::=set_tautologies(manager,~tautologies);
+//@header
+fn post_reorder_mut<M>(manager: &mut M)
+where M: Manager<Terminal = ZBDDTerminal> + HasZBDDCache<M::Edge>,
+//@spec
+    requires 0 <= old(manager).num_levels_spec() < u32::MAX,
+    ensures zcache_ok(final(manager)), final(manager).num_levels_spec() == old(manager).num_levels_spec(),
+//@loop
+    invariant
+        0 <= manager.num_levels_spec() < u32::MAX, iter__0.rem().len() <= manager.num_levels_spec(),
+        forall|i: int| 0 <= i < iter__0.rem().len() ==> #[trigger] iter__0.rem()[i] == iter__0.rem().len() - 1 - i,
+        tautologies@.len() == manager.num_levels_spec() - iter__0.rem().len() + 1,
+        forall|i: int| 0 <= i < tautologies@.len() ==> (#[trigger] tautologies@[i]).view() == taut_tree(manager.num_levels_spec() - i, manager.num_levels_spec()),
+    ensures
+        tautologies@.len() == manager.num_levels_spec() + 1,
+        forall|i: int| 0 <= i < tautologies@.len() ==> (#[trigger] tautologies@[i]).view() == taut_tree(manager.num_levels_spec() - i, manager.num_levels_spec()),
+    decreases iter__0.rem().len(),
 //@end
 impl<E: Edge> ZBDDCache<E> {
 //@fn file=crates/oxidd-rules-zbdd/src/lib.rs path=impl:<E:~Edge>~ZBDDCache<E>/fn:tautology ret=r props=C02,C09
@@ -2131,6 +2174,51 @@ where M: Manager<Terminal = ZBDDTerminal> + HasApplyCache<M, ZBDDOp> + HasZBDDCa
         && forall|env: Env| #[trigger] bsem(res->Ok_0.view(), manager.num_levels_spec(), env) == bsem(root.view(), manager.num_levels_spec(), cube_env(vars.view(), env)),
 //@end
 } // mod apply_rec_r
+pub mod apply_rec_pv {
+use super::*;
+broadcast use {leaf_lemmas, upd_lemmas};
+//@fn file=crates/oxidd-rules-zbdd/src/apply_rec.rs path=impl:BooleanFunction~for~ZBDDFunction<F>/fn:pick_cube_edge/fn:inner rename=pick_cube_edge__inner props=C13
+//@spec
+    requires edge_ok::<M::Edge>(), ok(edge.view(), manager.num_levels_spec()), edge.view() != ee(),
+        old(cube)@.len() == manager.num_levels_spec(),
+        // the slots of all levels the diagram can still decide are at their initial value (variable absent)
+        forall|l: int| top(edge.view()) <= l < manager.num_levels_spec() ==> old(cube)@[#[trigger] manager.level_to_var_spec(l)] == OptBool::False,
+        forall|l: int| 0 <= l < manager.num_levels_spec() ==> 0 <= #[trigger] manager.level_to_var_spec(l) < manager.num_levels_spec() && manager.var_to_level_spec(manager.level_to_var_spec(l)) == l,
+        // the choice function may be consulted only on a node whose two children differ and whose lo-child is satisfiable
+        forall|mm: &M, ee_: &M::Edge, l: LevelNo| (ee_.view() matches Tree::Inner(k, a, b) && k == l && *a != *b && *b != ee()) ==> #[trigger] choice.requires((mm, ee_, l)),
+    ensures final(cube)@.len() == old(cube)@.len(),
+        forall|l: int| 0 <= l < top(edge.view()) && l < manager.num_levels_spec() ==> final(cube)@[#[trigger] manager.level_to_var_spec(l)] == old(cube)@[manager.level_to_var_spec(l)],
+        // every set over the levels top..n that the written literals admit is a member of the family
+        forall|s: Env| (within(s, top(edge.view()), manager.num_levels_spec()) && zcube_allows(manager, final(cube)@, s, top(edge.view()))) ==> #[trigger] mem(edge.view(), s),
+    decreases edge.view(),
+//@end
+//@fn file=crates/oxidd-rules-zbdd/src/apply_rec.rs path=impl:BooleanFunction~for~ZBDDFunction<F>/fn:pick_cube_edge hoist=inner>pick_cube_edge__inner ret=r props=C13
+//@header
+fn pick_cube_edge<'a, M>(manager: &'a M, edge: &'a M::Edge, choice: impl FnMut(&M, &M::Edge, LevelNo) -> bool) -> (r: Option<Vec<OptBool>>)
+where M: Manager<Terminal = ZBDDTerminal> + HasApplyCache<M, ZBDDOp> + HasZBDDCache<M::Edge>, M::InnerNode: HasLevel,
+//@spec
+    requires edge_ok::<M::Edge>(), ok(edge.view(), manager.num_levels_spec()),
+        forall|l: int| 0 <= l < manager.num_levels_spec() ==> 0 <= #[trigger] manager.level_to_var_spec(l) < manager.num_levels_spec() && manager.var_to_level_spec(manager.level_to_var_spec(l)) == l,
+        forall|mm: &M, ee_: &M::Edge, l: LevelNo| (ee_.view() matches Tree::Inner(k, a, b) && k == l && *a != *b && *b != ee()) ==> #[trigger] choice.requires((mm, ee_, l)),
+    // nothing exactly for the empty family; otherwise a vector (one entry per variable) whose literals imply the function
+    ensures (r is None) == (edge.view() == ee()),
+        r is Some ==> r->Some_0@.len() == manager.num_levels_spec()
+            && forall|env: Env| zcube_allows(manager, r->Some_0@, set_of(env, manager.num_levels_spec()), 0) ==> #[trigger] bsem(edge.view(), manager.num_levels_spec(), env),
+//@end
+//@fn file=crates/oxidd-rules-zbdd/src/apply_rec.rs path=mod:mt/impl:BooleanFunction~for~ZBDDFunctionMT<F>/fn:pick_cube_edge name=pick_cube_edge__mt props=C13 ret=r subst_text=ZBDDFunction::<F>::::=
+//@header
+fn pick_cube_edge__mt<'a, M>(manager: &'a M, edge: &'a M::Edge, choice: impl FnMut(&M, &M::Edge, LevelNo) -> bool) -> (r: Option<Vec<OptBool>>)
+where M: Manager<Terminal = ZBDDTerminal> + HasApplyCache<M, ZBDDOp> + HasZBDDCache<M::Edge>, M::InnerNode: HasLevel,
+//@spec
+    requires edge_ok::<M::Edge>(), ok(edge.view(), manager.num_levels_spec()),
+        forall|l: int| 0 <= l < manager.num_levels_spec() ==> 0 <= #[trigger] manager.level_to_var_spec(l) < manager.num_levels_spec() && manager.var_to_level_spec(manager.level_to_var_spec(l)) == l,
+        forall|mm: &M, ee_: &M::Edge, l: LevelNo| (ee_.view() matches Tree::Inner(k, a, b) && k == l && *a != *b && *b != ee()) ==> #[trigger] choice.requires((mm, ee_, l)),
+    // nothing exactly for the empty family; otherwise a vector (one entry per variable) whose literals imply the function
+    ensures (r is None) == (edge.view() == ee()),
+        r is Some ==> r->Some_0@.len() == manager.num_levels_spec()
+            && forall|env: Env| zcube_allows(manager, r->Some_0@, set_of(env, manager.num_levels_spec()), 0) ==> #[trigger] bsem(edge.view(), manager.num_levels_spec(), env),
+//@end
+} // mod apply_rec_pv
 pub mod apply_rec_p {
 use super::*;
 broadcast use {leaf_lemmas, pick_lemmas};
@@ -2272,6 +2360,17 @@ where M: Manager<Terminal = ZBDDTerminal> + HasApplyCache<M, ZBDDOp> + HasZBDDCa
         iter__0.all() == args.all(),
         zeval_inv(values.bits@, ones as int, iter__0.all(), vl(manager), manager.num_levels_spec()),
     decreases iter__0.all().len() - iter__0.done().len(),
+//@end
+//@fn file=crates/oxidd-rules-zbdd/src/apply_rec.rs path=mod:mt/impl:BooleanFunction~for~ZBDDFunctionMT<F>/fn:eval_edge name=eval_edge__mt props=C02 ret=r subst_text=ZBDDFunction::<F>::::=
+//@header
+fn eval_edge__mt<M>(manager: &M, edge: &M::Edge, args: ArgIter) -> (r: bool)
+where M: Manager<Terminal = ZBDDTerminal> + HasApplyCache<M, ZBDDOp> + HasZBDDCache<M::Edge>, M::InnerNode: HasLevel,
+//@spec
+    requires ok(edge.view(), manager.num_levels_spec()), args.done() == Seq::<(u32, bool)>::empty(),
+        // documented panic otherwise
+        forall|i: int| 0 <= i < args.all().len() ==> (#[trigger] args.all()[i].0 as int) < manager.num_levels_spec(),
+    // the value of the Boolean function under the assignment given by the pairs (last value wins, unassigned variables false)
+    ensures r == bsem(edge.view(), manager.num_levels_spec(), aenv(args.all(), vl(manager), all_false())),
 //@end
 } // mod apply_rec_e
 
